@@ -107,8 +107,12 @@ class Scope:
                 return s.locals[name]
             s = s.parent
         if self.cls is not None and name in self.cls.assigns and self.in_class_body:
+            rhs = self.cls.assigns[name]
+            if isinstance(rhs, ast.Name) and rhs.id == name:
+                # `RE_FLAG_MAP = RE_FLAG_MAP` in a class body: the right-hand side is the module's name
+                return self.folder.global_value(self.module, name)
             return self.folder.eval(
-                self.cls.assigns[name], Scope(self.folder, self.module, self.cls)
+                rhs, Scope(self.folder, self.module, self.cls)
             )
         return self.folder.global_value(self.module, name)
 
@@ -658,6 +662,37 @@ class Folder:
             return Instance(func.cls, {})
         if isinstance(func, Closure):
             return self.call_closure(func, *args)
+        if isinstance(func, FuncRef) and func.func.cls is None and not getattr(func.func.node, "decorator_list", None) \
+                and isinstance(func.func.node, ast.FunctionDef):
+            # a plain module-level helper with a straight-line body: its parameters bound, its return value folded
+            fa = func.func.node.args
+            if fa.vararg or fa.kwarg or fa.posonlyargs:
+                raise NotConst(f"call of {func.func.qualname}: parameter list")
+            params = [a.arg for a in fa.args]
+            if len(args) > len(params):
+                raise NotConst(f"call of {func.func.qualname}: too many arguments")
+            bound: Dict[str, Any] = dict(zip(params, args))
+            defaults = dict(zip(params[len(params) - len(fa.defaults):], fa.defaults))
+            for a, d in zip(fa.kwonlyargs, fa.kw_defaults):
+                if d is not None:
+                    defaults[a.arg] = d
+            names = set(params) | {a.arg for a in fa.kwonlyargs}
+            for k_, v_ in kwargs.items():
+                if k_ not in names or k_ in bound:
+                    raise NotConst(f"call of {func.func.qualname}: keyword {k_}")
+                bound[k_] = v_
+            for n_ in names - set(bound):
+                if n_ not in defaults:
+                    raise NotConst(f"call of {func.func.qualname}: missing argument {n_}")
+                bound[n_] = self.eval(defaults[n_], Scope(self, func.func.module))
+            depth = getattr(self, "_call_depth", 0)
+            if depth > 8:  # noqa: PLR2004
+                raise NotConst(f"call of {func.func.qualname}: too deep")
+            self._call_depth = depth + 1
+            try:
+                return self.eval_function_return(func.func, bound)
+            finally:
+                self._call_depth = depth
         raise NotConst(f"call of {type(func).__name__}")
 
     # ------------------------------------------------- straight-line bodies
